@@ -4,6 +4,7 @@ Monitor: every call of TapeCassette.match_against_recorded_metadata made by the 
 is the reference matcher of vlib.refmodels.  Refuted by: the matcher raising, answering differently on a repeated
 call, or disagreeing with the reference; a listing aborted by one odd recording.
 """
+import copy
 import itertools
 import json
 
@@ -265,11 +266,32 @@ def listing_case(ctx, rng, li):
                 ctx.count('listings_with_metadata_object_shared_with_data')
             rec.add_metadata(md)
             box.cassette.save_recording(rec)
-            view = json.loads(encode(md, unpicklable=True)) if kind == 's3' else md
+            view = json.loads(encode(md, unpicklable=True)) if kind == 's3' else copy.deepcopy(md)
             saved.append((rec.id, view))
+        # the application goes on using the objects it put into the metadata (a request context, a params dict reused per request):
+        # what was SAVED is what lookups match against
+        for md in mds:
+            for k, v in list(md.items()):
+                if isinstance(v, list):
+                    v.append('changed-after-save')
+                elif isinstance(v, dict):
+                    v['changed-after-save'] = True
+            md['k'] = 'overwritten-after-save'
+        ctx.count('metadata_objects_mutated_after_save', len(mds))
         reader = box.reader()
-        for _ in range(6):
+
+        def matching_filter():
+            """A filter taken from what one of the recordings holds (so that it matches something)."""
+            cands = [(v, k) for _, v in saved for k in ('k', 'j') if k in v and not isinstance(v[k], list)]
+            if not cands:
+                return {'k': gen_filter_value(rng)}
+            dicts = [c for c in cands if isinstance(c[0][c[1]], dict)]
+            v, k = rng.choice(dicts if dicts and rng.random() < 0.6 else cands)
+            return {k: copy.deepcopy(v[k])}
+        for qi in range(8):
             flt = {k: gen_filter_value(rng) for k in rng.sample(['k', 'j', 'cls', 't'], rng.randrange(1, 3))}
+            if qi >= 6:
+                flt = matching_filter()
             desc = {'cassette': kind, 'prefix': prefix, 'metadata': mds, 'filter': flt}
             ctx.case(desc)
             ctx.count('listings')
@@ -284,6 +306,32 @@ def listing_case(ctx, rng, li):
                 ctx.violation('listing on %s cassette returned %d ids, reference %d (+%d unspecified)' % (
                     kind, len(got), len(must), len(may)), desc)
             ctx.count('listing_ids_compared', len(saved))
+        # two lazily evaluated lookups with different filters in flight on ONE cassette object, consumed alternately
+        for _ in range(3):
+            flts = [matching_filter(), rng.choice([None, matching_filter(), {'k': gen_filter_value(rng)}])]
+            desc = {'cassette': kind, 'prefix': prefix, 'metadata': [v for _, v in saved], 'filters_in_flight': flts}
+            ctx.case(desc)
+            ctx.count('interleaved_filtered_listings')
+            try:
+                gens = [iter(reader.iter_recording_ids('Cat', metadata=f)) for f in flts]
+                got = [[], []]
+                alive = [0, 1]
+                while alive:
+                    g = rng.choice(alive)
+                    try:
+                        got[g].append(next(gens[g]))
+                    except StopIteration:
+                        alive.remove(g)
+            except Exception as ex:
+                ctx.violation('interleaved listings on %s cassette aborted by %s: %s' % (kind, type(ex).__name__, ex), desc)
+                continue
+            for g in (0, 1):
+                f = flts[g]
+                must = set(rid for rid, v in saved if f is None or ref_match(f, v) is True)
+                may = set(rid for rid, v in saved if f is not None and ref_match(f, v) == UNSPEC)
+                if not (must <= set(got[g]) <= (must | may)) or len(got[g]) != len(set(got[g])):
+                    ctx.violation('a listing consumed while another listing (other filter) of the same %s cassette was in flight returned %d ids, reference %d' % (
+                        kind, len(got[g]), len(must)), dict(desc, listing=g))
 
 
 def replay(ctx, witness):
